@@ -178,13 +178,14 @@ func renderAcct(a *account.Account) string {
 // ---------------------------------------------------------------- generators
 
 type c10Gen struct {
-	rng  *rand.Rand
-	keys []string // pool of valid compressed public keys (hex)
-	wide bool     // search mode: more boundary values
+	rng    *rand.Rand
+	keys   []string       // pool of valid compressed public keys (hex)
+	wide   bool           // search mode: more boundary values
+	oneHot map[string]int // next one-hot optional term per order type
 }
 
 func newC10Gen(rng *rand.Rand, wide bool) *c10Gen {
-	g := &c10Gen{rng: rng, wide: wide}
+	g := &c10Gen{rng: rng, wide: wide, oneHot: map[string]int{}}
 	for i := 0; i < 48; i++ {
 		var b [32]byte
 		rng.Read(b[:])
